@@ -363,6 +363,28 @@ def check(tier, seed):
                    '(discard class) the rest unchanged, on the JSON event, the objects and Adj-RIB-In',
                    not bad, f'{len(cases)} bodies; {len(bad)} failing; first: {bad[0] if bad else ""}'[:2500])
 
+    # ---- repeat pass: sequences in one process state; every position must decode as the same body from a fresh state
+    n_x = 80 if tier == 'quick' else 2000
+    picked = rng.sample(cases, min(n_x, len(cases)))
+    goods = {}
+    for sess in sessions:
+        goods[sess.key] = []
+        while len(goods[sess.key]) < 4:
+            d = c02.gen_update(rng, sess, plain_as4=True)
+            if d['nlri'] and not d['mp_reach'] and not d['mp_unreach']:
+                goods[sess.key].append(c02.build(d, sess.addpath))
+    n_seq, rep_bad = c02.repeat_pass([(c['sess'], c['body'], f'attribute {c["code"]} fault {c["fault"]}') for c in picked], goods, rng, 'C08')
+    run.obligation('repeat pass: in one process state (AttributeCollection.unpack cache live, one Adj-RIB-In) every position of the '
+                   'sequences [good;X;X] [X;X] [X;good;X] [X;Y;X] decodes as the same body decoded from a fresh state',
+                   not rep_bad, f'{n_seq} sequences; {len(rep_bad)} failing; first: {rep_bad[0] if rep_bad else ""}'[:2500])
+    rep_seen = set()
+    for sig, what, case in rep_bad:
+        key = ':'.join(sig.split(':')[:2])
+        if key not in rep_seen:
+            rep_seen.add(key)
+            run.fail_case(key, what, case)
+    run.coverage['repeat_pass_sequences'] = n_seq
+
     seen = {}
     for i, sig, what in bad:
         # one replay per kind of failure and attribute code, the smallest body
